@@ -44,7 +44,7 @@ uint32_t lrtr_get_bits(const uint32_t val, const uint8_t from, const uint8_t num
 	assert(number < 33);
 
 	// no bits requested (e.g. a prefix of length 0): the result is 0
-	if (number == 0)
+	if (number == 0 || from > 31)
 		return 0;
 
 	uint32_t mask = ~0;
